@@ -2,6 +2,7 @@ package core
 
 import (
 	"fmt"
+	"strings"
 	"go/token"
 
 	"golang.org/x/tools/go/ssa"
@@ -86,6 +87,32 @@ func Unsat(a, b Atom) bool {
 	if SameAtom(a, b.Negate()) || Contradicts(a, b) {
 		return true
 	}
+	// x == S with S a package-level sentinel that is never nil, against x == nil
+	eqSentinel := func(p, q Atom) bool {
+		if p.Kind != EQ || q.Kind != EQ || p.L.K != 0 || q.L.K != 0 || len(p.L.Coef) != 2 || len(q.L.Coef) != 1 {
+			return false
+		}
+		var x string
+		for t := range q.L.Coef {
+			x = t
+		}
+		cx, has := p.L.Coef[x]
+		if !has {
+			return false
+		}
+		for t, c := range p.L.Coef {
+			if t == x || c != -cx {
+				continue
+			}
+			if g := globalOfTerm[t]; g != nil && sentinelNonNil(g) {
+				return true
+			}
+		}
+		return false
+	}
+	if eqSentinel(a, b) || eqSentinel(b, a) {
+		return true
+	}
 	ba, ok1 := boundOf(a, a)
 	bb, ok2 := boundOf(b, a)
 	if !ok1 || !ok2 {
@@ -163,19 +190,63 @@ func branchAtom(ifi *ssa.If, pred *ssa.BasicBlock) (a Atom, constant, value bool
 // entry of fn along a path none of whose branch edges is unsatisfiable together with
 // an atom of assume. It returns the instruction reached.
 func ReachableUnder(fn *ssa.Function, assume []Atom, targets map[ssa.Instruction]bool) (ssa.Instruction, bool) {
+	return ReachableUnderFrom(fn, nil, assume, targets, nil)
+}
+
+// ReachableUnderFrom is ReachableUnder starting after the instruction start (the
+// function entry when nil) and never continuing past an instruction of barriers.
+func ReachableUnderFrom(fn *ssa.Function, start ssa.Instruction, assume []Atom, targets, barriers map[ssa.Instruction]bool) (ssa.Instruction, bool) {
 	if len(fn.Blocks) == 0 {
 		return nil, false
 	}
-	type key struct{ b, pred *ssa.BasicBlock }
+	// An assumed atom over a loop-carried term (φx) speaks about one iteration: once the
+	// walk goes round a back edge the term denotes a new value, so such atoms are dropped
+	// (the claim is then "in whichever iteration the atoms hold, the site is not reached,
+	// then or later").
+	loopFree := func(as []Atom) []Atom {
+		var out []Atom
+		for _, a := range as {
+			if !strings.Contains(a.L.String(), "φ") {
+				out = append(out, a)
+			}
+		}
+		return out
+	}
+	type key struct {
+		b, pred *ssa.BasicBlock
+		n       int
+	}
 	seen := map[key]bool{}
 	var hit ssa.Instruction
-	var run func(b, pred *ssa.BasicBlock)
-	run = func(b, pred *ssa.BasicBlock) {
-		if hit != nil || seen[key{b, pred}] {
+	first := true
+	var run func(b, pred *ssa.BasicBlock, as []Atom)
+	run = func(b, pred *ssa.BasicBlock, as []Atom) {
+		if hit != nil {
 			return
 		}
-		seen[key{b, pred}] = true
-		for _, in := range b.Instrs {
+		if pred != nil && b.Dominates(pred) {
+			as = loopFree(as)
+		}
+		from := 0
+		if first && start != nil {
+			// begin right after the start instruction
+			for i, in := range b.Instrs {
+				if in == start {
+					from = i + 1
+				}
+			}
+			first = false
+		} else {
+			first = false
+			if seen[key{b, pred, len(as)}] {
+				return
+			}
+			seen[key{b, pred, len(as)}] = true
+		}
+		for _, in := range b.Instrs[from:] {
+			if barriers[in] {
+				return
+			}
 			if targets[in] {
 				hit = in
 				return
@@ -187,15 +258,15 @@ func ReachableUnder(fn *ssa.Function, assume []Atom, targets map[ssa.Instruction
 		ifi, ok := b.Instrs[len(b.Instrs)-1].(*ssa.If)
 		if !ok {
 			for _, s := range b.Succs {
-				run(s, b)
+				run(s, b, as)
 			}
 			return
 		}
 		if t, known := threadIf(ifi, pred); known {
 			if t {
-				run(b.Succs[0], b)
+				run(b.Succs[0], b, as)
 			} else {
-				run(b.Succs[1], b)
+				run(b.Succs[1], b, as)
 			}
 			return
 		}
@@ -211,8 +282,8 @@ func ReachableUnder(fn *ssa.Function, assume []Atom, targets map[ssa.Instruction
 					e = a.Negate()
 				}
 				pruned := false
-				for _, as := range assume {
-					if Unsat(e, as) {
+				for _, x := range as {
+					if Unsat(e, x) {
 						pruned = true
 					}
 				}
@@ -220,11 +291,50 @@ func ReachableUnder(fn *ssa.Function, assume []Atom, targets map[ssa.Instruction
 					continue
 				}
 			}
-			run(s, b)
+			run(s, b, as)
 		}
 	}
-	run(fn.Blocks[0], nil)
+	if start != nil {
+		run(start.Block(), nil, assume)
+	} else {
+		run(fn.Blocks[0], nil, assume)
+	}
 	return hit, hit != nil
+}
+
+// PassesUnder: under the assumed atoms every path from the start instruction (the
+// function entry when the selector is Entry()) to a normal return passes one of the
+// via sites. It is the path-evaluated "must pass through" with a precondition:
+// "when sendStream > 0 the stream WINDOW_UPDATE is written".
+func (c *Ctx) PassesUnder(fnName string, from, via Sel, assume ...string) bool {
+	rule := "passes-under"
+	construct := fmt.Sprintf("%s: when %s, after [%s] always [%s]", fnName, stripSpaces(strings.Join(assume, " && ")), from.Name, via.Name)
+	fn, ins := c.sites(rule, fnName, from)
+	if ins == nil {
+		return false
+	}
+	as, good := c.atoms(rule, construct, assume)
+	if !good {
+		return false
+	}
+	vias := via.F(c.P, fn)
+	if len(vias) == 0 {
+		c.Fail(rule, construct, fn.Pos(), "no ["+via.Name+"] site in this function")
+		return false
+	}
+	rets := instrSet(HcNormalReturns().F(c.P, fn))
+	for _, in := range ins {
+		start := in
+		if len(fn.Blocks) > 0 && len(fn.Blocks[0].Instrs) > 0 && in == fn.Blocks[0].Instrs[0] {
+			start = nil
+		}
+		if r, reach := ReachableUnderFrom(fn, start, as, rets, instrSet(vias)); reach {
+			c.Fail(rule, construct, InstrPos(in), fmt.Sprintf("the return at %s is reachable without [%s] although %s", c.P.Pos(InstrPos(r)), via.Name, strings.Join(assume, " && ")))
+			return false
+		}
+	}
+	c.OK(rule, construct, fmt.Sprintf("%d start site(s), %d via site(s)", len(ins), len(vias)))
+	return true
 }
 
 // unreachableUnderAll: no site is reachable under the assumption.
@@ -237,6 +347,17 @@ func unreachableUnder(fn *ssa.Function, assume []Atom, sites []ssa.Instruction) 
 // (each a conjunction of atoms) holds": for every way of falsifying all alternatives
 // (one negated atom per alternative) the sites are unreachable.
 func guardedByPaths(fn *ssa.Function, alts [][]Atom, sites []ssa.Instruction) bool {
+	// The path form proves "only when"; a test that was tightened (>= turned into >)
+	// still satisfies it. To keep reporting such boundary changes the fallback is used
+	// only when every atom is, exactly, the condition of some branch of the function:
+	// it tolerates re-nesting, re-ordering and merging of the same tests, not different tests.
+	for _, alt := range alts {
+		for _, a := range alt {
+			if !atomIsBranchCondition(fn, a) {
+				return false
+			}
+		}
+	}
 	n := 1
 	for _, a := range alts {
 		if len(a) == 0 {
@@ -366,4 +487,28 @@ func (c *Ctx) StoredUnder(fnName string, sel Sel, table map[string]string) bool 
 	}
 	c.OK(rule, construct, fmt.Sprintf("%d value(s) on %d path(s)", len(table), len(leaves)))
 	return true
+}
+
+// GuardedByPaths is the exported form of guardedByPaths (see there).
+func GuardedByPaths(fn *ssa.Function, alts [][]Atom, sites []ssa.Instruction) bool {
+	return guardedByPaths(fn, alts, sites)
+}
+
+// atomIsBranchCondition: some branch of fn establishes exactly a or exactly its negation on one of its edges.
+func atomIsBranchCondition(fn *ssa.Function, a Atom) bool {
+	found := false
+	eachInstr(fn, func(in ssa.Instruction) {
+		ifi, ok := in.(*ssa.If)
+		if !ok || found {
+			return
+		}
+		for _, val := range []bool{true, false} {
+			for _, f := range condFacts(ifi, ifi.Cond, val, 0) {
+				if f.If == ifi && (SameAtom(f.Atom, a) || SameAtom(f.Atom, a.Negate())) {
+					found = true
+				}
+			}
+		}
+	})
+	return found
 }
